@@ -2,6 +2,7 @@
 # benignrun.sh [budget_s] [ids...] : applies every property-preserving change
 # kept under benign/<id>/patch.diff to a fresh worktree of /repo HEAD and runs
 # the property's quick check against it: any VIOLATION is a false alarm.
+# (ids are <property> for round 1 and <property>-<round> afterwards)
 budget=${1:-40}; shift
 here=$(cd "$(dirname "$0")/.." && pwd)
 . "$here/env.sh"
@@ -13,7 +14,8 @@ for id in $ids; do
   git -C /repo worktree remove --force "$ev" 2>/dev/null
   git -C /repo worktree add -q --detach "$ev" HEAD || exit 2
   if (cd "$ev" && (git apply "$here/benign/$id/patch.diff" 2>/dev/null || git apply -3 "$here/benign/$id/patch.diff" >/dev/null 2>&1)); then
-    out=$(VERIF_REPO="$ev" VERIF_BUDGET_S=$budget ./bin/verif check $id 2>&1)
+    prop=${id%%-*}
+    out=$(VERIF_REPO="$ev" VERIF_BUDGET_S=$budget ./bin/verif check $prop 2>&1)
     n=$(echo "$out" | grep -c "^VIOLATION")
     if [ "$n" -gt 0 ]; then echo "FALSE-ALARM $id: $(echo "$out" | grep 'signature:' | head -3 | tr '\n' ';' | cut -c1-200)"; elif echo "$out" | grep -q "quick:"; then echo "QUIET   $id"; else echo "TROUBLE $id: $(echo "$out" | grep '^verif' | head -2 | cut -c1-200)"; fi
   else
